@@ -91,7 +91,8 @@ func checkC10(c caseC10) (frame []byte, sig, msg string) {
 	defer guard.SetCurrent(nil)
 	var p mq.ControlPacket
 	var err error
-	if pan := guard.Call(func() { p, _, err = buildC10(c) }); pan != nil {
+	var builtModel model.Packet
+	if pan := guard.Call(func() { p, builtModel, err = buildC10(c) }); pan != nil {
 		return nil, "build-panic", fmt.Sprintf("building panicked: %v", pan.Value)
 	}
 	if err != nil {
@@ -148,6 +149,14 @@ func checkC10(c caseC10) (frame []byte, sig, msg string) {
 	}
 	if fn != int64(len(full)) {
 		return full, "count", fmt.Sprintf("WriteTo returned n=%d but the writer received %d bytes", fn, len(full))
+	}
+	if c.ModelGob != "" && builtModel.Type >= 1 && builtModel.Type <= 15 && builtModel.WellFormedMQTT() && c12Encodable(&builtModel) {
+		// "one frame and nothing else": what was written for a well-formed
+		// packet is a frame the library itself reads back (no padding, no
+		// leftover bytes inside the declared length)
+		if q, rerr, rpan := read(full); rpan != nil || rerr != nil || q == nil {
+			return full, "own-frame-unreadable", fmt.Sprintf("the frame written for a well-formed %s is not read back by ReadPacket: %v %v\nframe %s", typeName(builtModel.Type), rerr, rpan, hx(full))
+		}
 	}
 	var s string
 	if pan := guard.Call(func() { s = p.String() }); pan != nil {
@@ -289,6 +298,17 @@ func TestC10(t *testing.T) {
 			m = gen.Packet(t, typ, gen.Opts{})
 		} else {
 			m = genC01(t, typ)
+		}
+		if !malformed && rapid.IntRange(0, 5).Draw(t, "emptykey") == 0 && len(api.WildFor(0)) == 0 {
+			// a user property with an empty key (the library does not write
+			// such a pair): the frame is still exactly one frame
+			switch typ {
+			case model.PINGREQ, model.PINGRESP:
+			default:
+				at := rapid.IntRange(0, len(m.UserProps)).Draw(t, "emptykeyat")
+				kv := model.KV{K: "", V: rapid.SampledFrom([]string{"keep-alive", "", "v"}).Draw(t, "emptykeyv")}
+				m.UserProps = append(m.UserProps[:at:at], append([]model.KV{kv}, m.UserProps[at:]...)...)
+			}
 		}
 		bc := drawBuildCase(t, &m, typ)
 		base := caseC10{ModelGob: bc.ModelGob, Model: bc.Model, Plan: bc.Plan, DecoyGob: bc.DecoyGob, Prelude: bc.Prelude, Accept: -1}
